@@ -2,6 +2,9 @@
 correspondence check compares between implementation and model) and per-property oracles
 (independent references evaluated on the IMPLEMENTATION trace; used only to find failing
 inputs, never to accept a property).  DESIGN.md sections 7.2, 9 and Appendix D."""
+import sys
+if hasattr(sys, "set_int_max_str_digits"):
+    sys.set_int_max_str_digits(0)      # the reference parser reads numeric arguments of any length (family `wide`: 65 537 digits)
 import re
 from lib import unhx
 
